@@ -37,6 +37,11 @@ impl Scope {
 
 const NUMS: &[&str] = &["0", "1", "2", "3", "5", "10", "0.5", "2.5", "100", "7", "1e3", "0.1"];
 const STRS: &[&str] = &["\"a\"", "\"b\"", "\"hello\"", "\"\"", "\"héllo\"", "\"x y\"", "'q'"];
+/// same-category unit pairs; several identifiers differ from another unit's only in case
+const UNIT_PAIRS: &[(&str, &str)] = &[
+    ("mm", "m"), ("Mm", "m"), ("mm", "Mm"), ("km", "mm"), ("mW", "W"), ("MW", "W"), ("mW", "MW"), ("mA", "MA"), ("mA", "A"),
+    ("ml", "l"), ("ML", "l"), ("ml", "ML"), ("mb", "MB"), ("MB", "b"), ("mb", "B"), ("mg", "kg"), ("C", "F"), ("c", "K"), ("km", "miles"), ("s", "min"),
+];
 const ARITH: &[&str] = &["+", "-", "*", "/", "%", "^"];
 const CMP: &[&str] = &["<", "<=", ">", ">=", "==", "!="];
 const DCMP: &[&str] = &[".<", ".<=", ".>", ".>=", ".==", ".!="];
@@ -57,7 +62,25 @@ pub fn gexpr(rng: &mut Rng, ty: Ty, sc: &Scope, depth: usize) -> String {
             if depth == 0 {
                 return rng.pick(NUMS).to_string();
             }
-            match rng.below(18) {
+            match rng.below(21) {
+                18 => {
+                    // unit conversion; the identifier lists contain pairs that differ only in case
+                    let (a, b) = *rng.pick(UNIT_PAIRS);
+                    let (a, b) = if rng.chance(1, 2) { (a, b) } else { (b, a) };
+                    format!("convert({}, \"{}\", \"{}\")", gexpr(rng, Ty::Num, sc, d), a, b)
+                }
+                19 => {
+                    // a do-block local that reuses the name of a visible variable, and a use of
+                    // that variable after the block in the same expression
+                    let vs = sc.of(Ty::Num);
+                    if vs.is_empty() {
+                        rng.pick(NUMS).to_string()
+                    } else {
+                        let v = rng.pick(&vs).to_string();
+                        format!("sum([do {{\n  {} = {}\n  return {} * 2\n}}, {}])", v, gexpr(rng, Ty::Num, sc, d), v, v)
+                    }
+                }
+                20 => format!("len({})", gexpr(rng, Ty::Str, sc, d)),
                 0..=3 => format!("({} {} {})", gexpr(rng, Ty::Num, sc, d), rng.pick(ARITH), gexpr(rng, Ty::Num, sc, d)),
                 4 => format!("(-{})", gexpr(rng, Ty::Num, sc, d)),
                 5 => format!("({}!)", rng.pick(&["0", "3", "5", "10"])),
@@ -109,6 +132,8 @@ pub fn gexpr(rng: &mut Rng, ty: Ty, sc: &Scope, depth: usize) -> String {
                 5 => format!("({}[{}] ?? \"\")", gexpr(rng, Ty::Str, sc, d), rng.pick(&["0", "1", "-1", "7"])),
                 6 => format!("typeof({})", gexpr(rng, Ty::Any, sc, d)),
                 7 => format!("replace({}, \"a\", \"zz\")", gexpr(rng, Ty::Str, sc, d)),
+                8 if rng.chance(1, 2) => format!("join({} + {}, \"|\")", gexpr(rng, Ty::Str, sc, d), rng.pick(&["[\"a\", \"b\"]", "[\"\", \"xy\", \"é\"]"])),
+                8 if rng.chance(1, 2) => format!("join({} + {}, \"|\")", rng.pick(&["[\"a\", \"b\"]", "[\"p\", \"\"]"]), gexpr(rng, Ty::Str, sc, d)),
                 _ => rng.pick(STRS).to_string(),
             }
         }
